@@ -127,6 +127,13 @@ pub fn check(case: &Case) -> Verdict {
             let want = m.order.iter().copied().find(|&i| m.row.units[i].symbol == symbol);
             let g1 = (t.unit_from_symbol)(symbol);
             let g2 = (t.from_symbol)(symbol);
+            // a lookup depends on its argument only
+            let h = crate::hist::mix(&[crate::hist::mix_str(symbol), *ty as u64]);
+            if h % 4 == 0 {
+                if let Some(msg) = crate::hist::independent(h, &|| format!("{:?} / {:?}", (t.unit_from_symbol)(symbol), (t.from_symbol)(symbol))) {
+                    fail!("{}: lookup of symbol {:?} {}", m.row.name, symbol, msg);
+                }
+            }
             if g1 != want || g2 != want {
                 fail!(
                     "{}: unit_from_symbol({:?}) = {:?}, from_symbol = {:?}; first unit in iteration order with that symbol: {:?}",
@@ -151,6 +158,12 @@ pub fn check(case: &Case) -> Verdict {
             let want = m.order.iter().copied().find(|&i| (rv.scale)(i) == s);
             let g1 = (rv.unit_from_scale)(s);
             let g2 = (rv.from_scale)(s);
+            let h = crate::hist::mix(&[crate::hist::mix_str(scale), *ty as u64]);
+            if h % 4 == 0 {
+                if let Some(msg) = crate::hist::independent(h, &|| format!("{:?} / {:?}", (rv.unit_from_scale)(s), (rv.from_scale)(s))) {
+                    fail!("{}: lookup of scale {} {}", m.row.name, amt::show(s), msg);
+                }
+            }
             if g1 != want || g2 != want {
                 fail!(
                     "{}: unit_from_scale({}) = {:?}, from_scale = {:?}; first unit in iteration order with that scale: {:?}",
